@@ -102,6 +102,23 @@ func runCase(t *testing.T, p *pool, c *GCase) {
 	var first []byte
 	var firstErr error
 	c.Det, c.Evals, c.AltOuts, c.NReports = true, 0, nil, 0
+	// Attempts that were abandoned (leader change / epoch timeout before commit) leave no trace in the value of the
+	// round: instance 1 has validated, and computed an outcome from, OTHER observations for this very sequence number
+	// (each observer's bytes swapped with its neighbour's); instance 2 has done the same for the previous sequence
+	// number and then missed the committed attempt.  Instance 0 has seen neither.  All three must agree below.
+	if len(aobs) >= 2 && len(nodes) >= 3 {
+		decoy := make([]ocr2plustypes.AttributedObservation, len(aobs))
+		for i := range aobs {
+			decoy[i] = ocr2plustypes.AttributedObservation{Observation: append([]byte(nil), aobs[(i+1)%len(aobs)].Observation...), Observer: aobs[i].Observer}
+		}
+		for _, ao := range decoy {
+			_ = nodes[1].Plugin.ValidateObservation(context.Background(), outctx, nil, ao)
+		}
+		_, _ = nodes[1].Plugin.Outcome(context.Background(), outctx, nil, decoy)
+		if c.Seq > 1 {
+			_, _ = nodes[2].Plugin.Outcome(context.Background(), ocr3types.OutcomeContext{SeqNr: c.Seq - 1}, nil, decoy)
+		}
+	}
 	for rep := 0; rep < 3; rep++ {
 		for _, nd := range nodes {
 			// fresh copies of the inputs for every evaluation (Outcome may alias what it decodes)
